@@ -2,3 +2,4 @@
 import AJ.Props.C07
 import AJ.Props.C07Float
 import AJ.Props.C07Cross
+import AJ.Props.SlotCor
